@@ -252,7 +252,14 @@ class SaveCrashScenario(PersistScenario):
             t = anys[0]
             key = ops.split_last(t.path)[1]
             old = t.value
-            setattr(t.owner, key, Opaque(7) if fmt != "bson" else 2 ** 70)
+            if fmt == "xml":
+                # not encodable at all / a character XML cannot carry / map keys that are not XML names
+                bad = rng.choice([Opaque(7), "a\x0bb", "\x00", {"bad key": 1}, {"1x": "v"}, {"": 1}, ["ok", "\x1f"]])
+            elif fmt == "bson":
+                bad = rng.choice([2 ** 70, -(2 ** 70), Opaque(7)])
+            else:
+                bad = Opaque(7)
+            setattr(t.owner, key, bad)
             restore = lambda: setattr(t.owner, key, old)  # noqa: E731
         j0 = len(w.journal)
         try:
@@ -277,7 +284,15 @@ class SaveCrashScenario(PersistScenario):
             rec.check()
             opened = [e for e in journal if e[3] == dest and e[2] in ("open", "create", "truncate", "write", "replace", "remove")
                       and not (e[2] == "open" and e[4] in ("rb", "r"))]
-            if after != P:
+            if what == "out-of-domain-value" and err is None and after != P:
+                # the save went through: then what it wrote must load back (the other half of the statement)
+                fresh = st.B.root()
+                _, lerr = self._call(lambda: fresh.load(fname, use_fmt) if not use_opts else fresh.loads(after, use_fmt, **{k: v for k, v in use_opts.items() if k != "pretty"}))
+                if lerr is not None:
+                    rec.fail("C19/success", "C19/successful-save-does-not-load-back/%s" % fmt,
+                             "save(%s) of a value outside the format's domain returned normally and replaced the destination by a document that does not load: %r" % (fmt, lerr))
+                rec.probe("out-of-domain-value-saved-and-loads")
+            elif after != P:
                 rec.fail("C19/untouched", "C19/destination-damaged/%s/%s" % (label, "truncated" if (after is not None and P and not after) else "changed"),
                          "save(%s) with a failing step (%s #%d: %s) left %s bytes at the destination; it held %s bytes before"
                          % (fmt, what, k, "raised " + type(err).__name__ if err else "returned normally",
